@@ -182,6 +182,13 @@ func (c *Ctx) Finish(verifDir string, seed int64, checkerCmd string) int {
 		}
 	}
 	// evidence
+	if c.Assumptions == nil {
+		c.Assumptions = []string{}
+	}
+	if c.NotDecided == nil {
+		c.NotDecided = []string{}
+	}
+	c.Assumptions = append(c.Assumptions, "the analysed configuration (GOOS/GOARCH, tags) is the one shipped; third-party libraries behave as their documented signatures say")
 	samples := make([]Obligation, 0, len(c.Obs))
 	samples = append(samples, c.Obs...)
 	fns := make([]string, 0, len(c.AnalysedFns))
